@@ -76,20 +76,14 @@ impl<T: RtpsWriter> DataWriterEntity<T> {
         message_writer: &(impl WriteMessage + ?Sized),
         runtime: &impl DdsRuntime,
     ) -> DdsResult<()> {
-        if !self
+        let is_instance_registered = self
             .registered_instance_info
             .iter()
-            .any(|x| x.instance_handle == sample_instance_handle)
+            .any(|x| x.instance_handle == sample_instance_handle);
+        if !is_instance_registered
+            && self.registered_instance_info.len() >= self.qos.resource_limits.max_instances
         {
-            if self.registered_instance_info.len() < self.qos.resource_limits.max_instances {
-                self.registered_instance_info.push(RegisteredInstanceInfo {
-                    instance_handle: sample_instance_handle,
-                    last_write_time: None,
-                    samples: VecDeque::new(),
-                });
-            } else {
-                return Err(DdsError::OutOfResources);
-            }
+            return Err(DdsError::OutOfResources);
         }
 
         if let Length::Limited(max_samples_per_instance) =
@@ -101,15 +95,14 @@ impl<T: RtpsWriter> DataWriterEntity<T> {
                 HistoryQosPolicyKind::KeepLast(depth)
                     if depth as i32 <= max_samples_per_instance => {}
                 _ => {
-                    if let Some(s) = self
+                    // Only Alive changes count towards the resource limits
+                    let samples_of_instance = self
                         .registered_instance_info
                         .iter()
                         .find(|x| x.instance_handle == sample_instance_handle)
-                    {
-                        // Only Alive changes count towards the resource limits
-                        if s.samples.len() >= max_samples_per_instance as usize {
-                            return Err(DdsError::OutOfResources);
-                        }
+                        .map_or(0, |s| s.samples.len());
+                    if samples_of_instance >= max_samples_per_instance as usize {
+                        return Err(DdsError::OutOfResources);
                     }
                 }
             }
@@ -124,6 +117,16 @@ impl<T: RtpsWriter> DataWriterEntity<T> {
             if total_samples >= max_samples as usize {
                 return Err(DdsError::OutOfResources);
             }
+        }
+
+        // The instance is registered only once the write is known to fit the resource limits
+        // so that a refused write leaves no trace
+        if !is_instance_registered {
+            self.registered_instance_info.push(RegisteredInstanceInfo {
+                instance_handle: sample_instance_handle,
+                last_write_time: None,
+                samples: VecDeque::new(),
+            });
         }
 
         self.last_change_sequence_number += 1;
